@@ -11,6 +11,7 @@ import ProphyModel.Lemmas.WFAccept
 import ProphyModel.Lemmas.AcceptImplies
 import ProphyModel.Lemmas.ModelAccept
 import ProphyModel.Properties.Tables
+import ProphyModel.Properties.TablesTexts
 namespace Prophy.C12
 open Prophy Prophy.Accept
 
